@@ -106,3 +106,54 @@ def check(chk, facts):
             if vn == "Error":
                 vals = {str(s[2][1][1].get("v")) for s in f.blocks[tgt]["st"] if s[0] == "a" and s[1] == [0] and s[2][0] == "use" and s[2][1][0] == "k"}
                 chk.ob(rule, "Residual::Error", vals == {"1"}, "an error residual reports `may error`: %s" % (vals == {"1"}), where=f.where(), fn=f.name)
+
+
+def folds_guarded(chk, facts):
+    """TPE evaluator: with a partial (not yet known) left operand of && / || / the guard of if, a concrete answer is produced only
+    under `!can_error_assuming_well_formed(left)` — otherwise the dropped operand could still error on a completion."""
+    from lib import panics
+    rule = "C14.GUARD.fold"
+    name = "cedar_policy_core::tpe::evaluator::Evaluator::interpret"
+    f = get_fn(chk, facts, rule, name)
+    r = facts.adts.get(KIND)
+    RES = facts.adts.get("cedar_policy_core::tpe::residual::Residual")
+    if f is None or r is None or RES is None:
+        return
+    mk_concrete = None
+    for cl in facts.closures_of(name):
+        if any(s_[0] == "a" and s_[2][0] == "agg" and s_[2][1][0] == "adt" and s_[2][1][1].endswith("tpe::residual::Residual") and s_[2][1][2] == "Concrete" for _, s_ in cl.stmts()):
+            mk_concrete = cl.name
+    if mk_concrete is None:
+        chk.lost(rule, "the closure building Residual::Concrete (mk_concrete)")
+        return
+    ev = hom.arm_events(facts, f, "tpe::residual::ResidualKind", lambda c, t: None)
+    if ev is None:
+        chk.lost(rule, "match on ResidualKind in interpret")
+        return
+    part_vi = [i for i, v in enumerate(RES["variants"]) if v["name"] == "Partial"][0]
+    n = 0
+    for vi, arm in sorted(ev["arms"].items()):
+        vn = r["variants"][vi]["name"]
+        if vn not in ("And", "Or"):
+            continue
+        region = arm["region"]
+        sws = [sw for sw in shape.variant_switches(f, "tpe::residual::Residual") if sw[0] in region and part_vi in sw[2]]
+        first = [sw for sw in sws if all(cfg.dominates(f, sw[0], o[0]) for o in sws)]
+        if not first:
+            chk.ob(rule, vn, False, "no match on the interpreted left operand in the %s arm" % vn, where=f.where(), fn=f.name)
+            continue
+        b, scrut, arms, other = first[0]
+        preg = cfg.dominated_region(f, arms[part_vi])
+        bad = []
+        sites = 0
+        for bb in sorted(preg):
+            t = f.blocks[bb]["t"]
+            if t[0] == "call" and callee(t) == mk_concrete and t[3] == [0]:
+                sites += 1
+                guards = [(panics.cond_desc(f, d), [str(v) for v, _ in taken]) for d, taken in cfg.guard_edges(f, bb) if d in preg]
+                if not any("can_error_assuming_well_formed" in g and tk == ["0"] for g, tk in guards):
+                    bad.append(t[1].get("l"))
+        n += 1
+        chk.ob(rule, vn, not bad and sites >= 1, "%s with a partial left operand: %d concrete answer(s), each under `!can_error_assuming_well_formed(left)`%s" % (vn, sites, "" if not bad else " — except at L%s" % bad),
+               where=f.where(bad[0] if bad else None), fn=f.name, key="%s:%s" % (rule, vn))
+    chk.floor(rule, "connectives", n, 2)
